@@ -65,11 +65,14 @@ type Config struct {
 }
 
 func DefaultDialer() *uacp.Dialer {
+	// every dialer gets its own copy of the handshake defaults so that the
+	// buffer and limit options of one client do not change the defaults.
+	ack := *uacp.DefaultClientACK
 	return &uacp.Dialer{
 		Dialer: &net.Dialer{
 			Timeout: DefaultDialTimeout,
 		},
-		ClientACK: uacp.DefaultClientACK,
+		ClientACK: &ack,
 	}
 }
 
